@@ -458,6 +458,39 @@ def check_text_spelling(space, name, acc):
                         bucket=f"text-spelling:{space}")
 
 
+def check_policy_integers(acc):
+    """Reporting-policy values in binary input: the sixteen combinations of the four registered bits are shown as exactly their names;
+    any other integer (negative, or with an unregistered bit) is refused - or at least not shown as a combination that some other integer
+    already denotes (two codes, one rendering)."""
+    bits = R.KEY_SPACES["policy-bits"]
+    names_of = {}
+    for v in list(range(0, 16)) + list(range(-300, 0)) + list(range(16, 301)) + [2**16, 2**32, 2**64 - 1, -(2**32), -(2**64)]:  # the registered combinations first
+        desc = seq_env([{"suit-condition-image-match": []}])
+        data = refenc.envelope(copy.deepcopy(desc))
+        bad = cb.enc(_edit(cb.loads(data), ["t", ("k", 3), "b", ("k", 7), "b"], ("i", 1), 0, v))
+        acc.case(nt_key=("policy-int", v), classes=["policy-integers"] + (["policy:registered-combination"] if 0 <= v <= 15 else []))
+        try:
+            shown = sut.parse_mem(bad)
+        except boot.HarnessError:
+            raise
+        except Exception:
+            if 0 <= v <= 15:
+                raise Violation(f"parse refuses reporting policy {v}, a combination of registered bits", "its bit names")
+            continue
+        try:
+            got = shown["SUIT_Envelope_Tagged"]["suit-manifest"]["suit-validate"][0]["suit-condition-image-match"]
+        except Exception:
+            got = None
+        want = sorted(n for n, b in bits.items() if 0 <= v <= 15 and v & b)
+        key = json.dumps(sorted(got) if isinstance(got, list) else got)
+        if 0 <= v <= 15:
+            if not isinstance(got, list) or sorted(got) != want:
+                raise Violation(f"reporting policy {v} is shown as {got!r}", f"{want}")
+        elif key in names_of:
+            raise Violation(f"reporting policy {v} is accepted and shown as {got!r} - the rendering of policy {names_of[key]}", "refusal (one rendering per code)", bucket="policy-two-codes-one-rendering")
+        names_of.setdefault(key, v)
+
+
 def _widen_tags(data, which, width, only_nth=None):
     """Re-encode tag `which` with a `width`-byte argument (valid but not shortest CBOR), everywhere or at its n-th occurrence."""
     head = {2: b"\xd9", 4: b"\xda", 8: b"\xdb"}[width]
@@ -628,6 +661,10 @@ def run_shard(ctx, spec):
             check_tag_widths(acc)
         except Violation as v:
             acc.fail("tag-widths", {"tag_widths": True}, v.observed, v.expected, bucket=v.bucket)
+        try:
+            check_policy_integers(acc)
+        except Violation as v:
+            acc.fail("policy-integers", {"policy_integers": True}, v.observed, v.expected, bucket=v.bucket)
     return acc
 
 
@@ -644,6 +681,8 @@ def replay(ctx, check, case):
             check_text_spelling(case["space"], case["name"], acc)
         elif check == "tag-widths":
             check_tag_widths(acc)
+        elif check == "policy-integers":
+            check_policy_integers(acc)
         else:
             check_tags(acc)
     except Violation as v:
